@@ -107,6 +107,11 @@ def build(P):
             # BYREF parameter whose declared type and the argument's type differ only through a procedure-level definition of the same name
             "TYPE R\nDECLARE q : IP\nENDTYPE\nDECLARE s : STRING\ns <- \"hello\"\nFUNCTION H(BYREF rr : R) RETURNS INTEGER\nTYPE IP = ^STRING\nrr.q <- ^s\nRETURN 0\nENDFUNCTION\nPROCEDURE P(BYREF a : INTEGER, BYVAL b : INTEGER)\na <- 5\nENDPROCEDURE\nPROCEDURE F()\nTYPE IP = ^INTEGER\nDECLARE x : INTEGER\nDECLARE r : R\nr.q <- ^x\nCALL P(r.q^, H(r))\nENDPROCEDURE\nCALL F()\nOUTPUT s\nOUTPUT LENGTH(s)",
             "TYPE IP = ^INTEGER\nDECLARE x : INTEGER\nDECLARE s : STRING\nDECLARE p : IP\np <- ^x\ns <- \"hello\"\nFUNCTION G() RETURNS INTEGER\nTYPE IP = ^STRING\np <- ^s\nRETURN 0\nENDFUNCTION\nPROCEDURE P(BYREF a : INTEGER, BYVAL b : INTEGER)\na <- 5\nENDPROCEDURE\nCALL P(p^, G())\nOUTPUT s\nOUTPUT LENGTH(s)",
+            # a global record type whose member type exists only as procedure-local types (three former crashes), forward reference to a later global type
+            'TYPE T\nDECLARE f : U\nENDTYPE\nPROCEDURE P3(BYREF y : INTEGER, BYREF x : T)\nTYPE U\nDECLARE b : INTEGER\nENDTYPE\nDECLARE l2 : T\nx <- l2\ny <- 1\nENDPROCEDURE\nPROCEDURE P1\nTYPE U\nDECLARE a : INTEGER\nENDTYPE\nDECLARE l : T\nCALL P3(l.f.a, l)\nENDPROCEDURE\nCALL P1',
+            'TYPE T\nDECLARE e : E\nENDTYPE\nPROCEDURE P2(BYREF x : T)\nTYPE E = (c, d, third)\nx.e <- third\nENDPROCEDURE\nPROCEDURE P1\nTYPE E = (a, b)\nDECLARE l : T\nCALL P2(l)\nOUTPUT l.e\nENDPROCEDURE\nCALL P1',
+            'TYPE T\nDECLARE q : PL\nENDTYPE\nPROCEDURE P2(BYREF x : T)\nDECLARE i : INTEGER\nx.q <- ^i\nENDPROCEDURE\nPROCEDURE P1\nTYPE PL = ^INTEGER\nDECLARE l : T\nCALL P2(l)\nENDPROCEDURE\nCALL P1',
+            'TYPE Node\nDECLARE val : INTEGER\nDECLARE next : NodePtr\nENDTYPE\nTYPE NodePtr = ^Node\nDECLARE a, b : Node\nDECLARE p : NodePtr\na.val <- 1\nb.val <- 2\na.next <- ^b\np <- a.next\nOUTPUT p^.val\nPROCEDURE Q()\nTYPE L\nDECLARE z : LE\nENDTYPE\nTYPE LE = (one, two)\nDECLARE v : L\nv.z <- two\nOUTPUT v.z\nDECLARE n : Node\nn.val <- 7\nn.next <- ^a\nOUTPUT n.next^.val\nENDPROCEDURE\nCALL Q()',
             # a later argument with a side effect on an earlier BYREF argument's target
             "DECLARE x : INTEGER\nx <- 1\nFUNCTION Bump() RETURNS INTEGER\nx <- x + 10\nRETURN x\nENDFUNCTION\nPROCEDURE P(BYREF a : INTEGER, b : INTEGER)\nOUTPUT a, \" \", b\na <- a + b\nENDPROCEDURE\nCALL P(x, Bump())\nOUTPUT x",
             "TYPE IP = ^INTEGER\nDECLARE x, y : INTEGER\nDECLARE p : IP\nx <- 1\ny <- 2\np <- ^x\nFUNCTION Swing() RETURNS INTEGER\np <- ^y\nRETURN 7\nENDFUNCTION\nPROCEDURE P(BYREF a : INTEGER, b : INTEGER)\na <- a * 100 + b\nENDPROCEDURE\nCALL P(p^, Swing())\nOUTPUT x, \" \", y",
